@@ -117,6 +117,23 @@ def run(run, binfo):
         ex = rng.random() < 0.3
         reqs.append([15, ex, [enc_default(d) for d in ds]])
         infos.append((ds, ex))
+    # a catalogue: every kind of default x every kind of (missing) description / reason / scope, each on its own
+    from oslo_policy import policy as _p
+    for desc_ in (None, '', '   ', 'Some text.'):
+        for scope_ in (None, ['project']):
+            for kind_ in ('plain', 'removal-noreason', 'removal', 'renamed-noreason', 'renamed', 'changed'):
+                kw_ = {}
+                if kind_.startswith('removal'):
+                    kw_ = dict(deprecated_for_removal=True, deprecated_reason='' if 'noreason' in kind_ else 'going away',
+                               deprecated_since='N')
+                elif kind_.startswith('renamed') or kind_ == 'changed':
+                    kw_ = dict(deprecated_rule=_p.DeprecatedRule(
+                        'cat:old' if kind_.startswith('renamed') else 'cat:rule', 'role:old',
+                        deprecated_reason=None if 'noreason' in kind_ else 'because', deprecated_since='N'))
+                for ex_ in (False, True):
+                    d_ = _p.RuleDefault('cat:rule', 'role:member', description=desc_, scope_types=scope_, **kw_)
+                    reqs.append([15, ex_, [enc_default(d_)]])
+                    infos.append(([d_], ex_))
     for (ds, ex), ans in zip(infos, run_batch(reqs)):
         run.evaluations += 1
         desc = {'defaults': [(d.name, d.check_str, d.description) for d in ds], 'exclude_deprecated': ex}
